@@ -518,6 +518,9 @@ func runParse(hs bool, named bool, name string, readErr bool, stream []byte, mod
 		src = namedFragReader{fragReader: fr, name: name}
 	case seed%2 == 1:
 		src = fileReader{fr}
+	case seed%3 == 0:
+		// exactly a *bufio.Reader, with a buffer shorter than some lines
+		src = bufio.NewReaderSize(fr, int(pick(rand.New(rand.NewPCG(seed, 5)), 16, 16, 64, 4096)))
 	}
 	var o parseOutcome
 	var err error
